@@ -28,15 +28,18 @@ ASSUMPTIONS = [
 ]
 BUDGET = {
     'quick': [dict(name='main', env={}, shards=2,
-                   cases={'uniform': 500, 'gaussian': 500, 'strings': 250, 'defaults': 250})],
+                   cases={'uniform': 500, 'gaussian': 500, 'strings': 250, 'defaults': 250, 'defaults_objects': 100})],
     'thorough': [dict(name='main', env={}, shards=16,
-                      cases={'uniform': 3200, 'gaussian': 3200, 'strings': 1500, 'defaults': 1500}),
+                      cases={'uniform': 3200, 'gaussian': 3200, 'strings': 1500, 'defaults': 1500, 'defaults_objects': 600}),
                  dict(name='repo-tests', env={}, shards=1, cases={'repo_tests': 1})],
 }
 REQUIRED = dict(monitors=['contract:uniform.sample', 'contract:gaussian.sample', 'contract:prior.prior',
                           'uniform-inverse-cdf', 'gaussian-roundtrip-cdf', 'text-equals-direct',
-                          'default-prior', 'monotone', 'lin-equivalence'],
-                classes=['Uniform', 'LogUniform', 'Gaussian', 'LogGaussian', 'bounds-reversed', 'u=0', 'u=1'])
+                          'default-prior', 'monotone', 'lin-equivalence', 'default-prior-of-own-bounds',
+                          'text-read-again-equals-direct'],
+                classes=['Uniform', 'LogUniform', 'Gaussian', 'LogGaussian', 'bounds-reversed', 'u=0', 'u=1',
+                         'set_bounds-on-live-object', 'text:first-object-retuned', 'modify_bounds:NPoint',
+                         'modify_bounds:Isothermal'])
 
 
 def classify(f):
@@ -350,6 +353,61 @@ def wl_defaults(ctx, rng):
     ctx.sig('defaults', tuple(expect))
 
 
+_class_defaults = {}
+
+
+def _fresh_objects(rng):
+    from taurex.data.profiles.temperature import Isothermal, Guillot2010, NPoint
+    from taurex.data import Planet
+    k = rng.integers(0, 4)
+    if k == 0:
+        return Isothermal, lambda: Isothermal(T=float(rng.uniform(500, 1500)))
+    if k == 1:
+        return Guillot2010, lambda: Guillot2010(T_irr=float(rng.uniform(1400, 2400)))
+    if k == 2:
+        return Planet, lambda: Planet(planet_mass=float(rng.uniform(0.5, 2)), planet_radius=float(rng.uniform(0.5, 2)))
+    return NPoint, lambda: NPoint(T_surface=1500.0, T_top=300.0, temperature_points=[900.0, 600.0], pressure_points=[1e4, 1e2])
+
+
+def wl_defaults_objects(ctx, rng):
+    """Default priors of REAL components: the bounds of one object are changed through the public
+    Fittable.modify_bounds(); its own default prior follows, and every other object of the class (built before or
+    after) and every sibling parameter keeps the default prior of ITS bounds."""
+    from taurex.optimizer.optimizer import compile_params
+    cls, make = _fresh_objects(rng)
+    first = make()
+    if cls not in _class_defaults:                 # the class's documented defaults, read before anything modifies them
+        _class_defaults[cls] = {n: (t[4], tuple(t[6])) for n, t in first.fitting_parameters().items()}
+    defaults = _class_defaults[cls]
+    other_before = make()
+    names = [n for n in defaults if len(defaults[n][1]) == 2]
+    target = str(names[int(rng.integers(0, len(names)))])
+    mode, old = defaults[target]
+    lo = abs(old[0]) * float(rng.uniform(1.1, 2.0)) + 1e-3
+    new = [lo, lo * float(rng.uniform(1.5, 4.0))]
+    first.modify_bounds(target, list(new))
+    other_after = make()
+    ctx.observe('modify_bounds:' + cls.__name__)
+    u = u_grid(rng)
+
+    def judge(obj, expect, who):
+        fp = {n: (t[0], t[1], t[2], t[3], t[4], True, t[6]) for n, t in obj.fitting_parameters().items() if n in expect}
+        fitted, pri, pdict, der = compile_params(fp, {})
+        for t, p in zip(fitted, pri):
+            md, b = expect[t[0]]
+            la, lb = (math.log10(b[0]), math.log10(b[1])) if md == 'log' else (b[0], b[1])
+            ctx.close('default-prior-of-own-bounds', p.boundaries(), (min(la, lb), max(la, lb)), 1e-13, atol=1e-13,
+                      param=t[0], who=who, cls=cls.__name__, modified=target, new_bounds=new)
+            ctx.close('default-prior-of-own-bounds', p.sample(u), uniform_oracle(la, lb, u), 1e-11,
+                      atol=1e-11 * max(abs(la), abs(lb)), param=t[0], who=who, cls=cls.__name__)
+    expect_first = dict(defaults)
+    expect_first[target] = (mode, tuple(new))
+    judge(first, expect_first, 'the modified object')
+    judge(other_before, defaults, 'another object built before')
+    judge(other_after, defaults, 'another object built afterwards')
+    ctx.sig('defaults-objects', cls.__name__, target, tuple(new))
+
+
 def wl_repo_tests(ctx, rng):
     """The repository's own prior tests, run with the contracts on (same process)."""
     import pytest
@@ -366,7 +424,7 @@ def wl_repo_tests(ctx, rng):
 
 
 WORKLOADS = {'uniform': wl_uniform, 'gaussian': wl_gaussian, 'strings': wl_strings, 'defaults': wl_defaults,
-             'repo_tests': wl_repo_tests}
+             'repo_tests': wl_repo_tests, 'defaults_objects': wl_defaults_objects}
 
 LEVEL_TEXT = ('Exploration by runtime monitoring: icontract postconditions on the real Uniform/Gaussian sample() and '
               'Prior.prior(), judged against the inverse CDF computed from the constructor arguments a tap recorded, '
